@@ -338,6 +338,7 @@ static void vivo_x86(FILE* out, vj::Rng& r, unsigned fn, bool is32) {
   unsigned steps = 6 + unsigned(r.below(40));
   x86::Gp cnt = cc.new_gp32("cnt");
   cc.mov(cnt, 3);
+  unsigned ncalls = 0;
   for (unsigned i = 0; i < steps; i++) {
     unsigned c = unsigned(r.below(100));
     x86::Gp a = v[r.below(nv)], b = v[r.below(nv)];
@@ -355,6 +356,19 @@ static void vivo_x86(FILE* out, vj::Rng& r, unsigned fn, bool is32) {
       else if (bound > 0) { cc.sub(cnt, 1); cc.jnz(labs[r.below(bound)]); }
     }
     else if (c < 90) { x86::Gp sh = cc.new_gp32("sh"); cc.mov(sh, 3); cc.shl(a.r32(), sh.r8()); }      // fixed register (cl)
+    else if (c < 93 && ncalls < 2) {
+      // a call with more arguments than argument registers: the frame gets a call area (local_stack_offset != 0)
+      ncalls++;
+      FuncSignature cs(CallConvId::kCDecl);
+      cs.set_ret_t<uint32_t>();
+      unsigned na = 2 + unsigned(r.below(8));
+      for (unsigned k = 0; k < na; k++) cs.add_arg_t<uint32_t>();
+      InvokeNode* inv;
+      if (cc.invoke(Out(inv), imm(uint64_t(0x1000)), cs) == Error::kOk) {
+        for (unsigned k = 0; k < na; k++) inv->set_arg(k, v[r.below(nv)].r32());
+        inv->set_ret(0, b.r32());
+      }
+    }
     else cc.mov(a.r32(), int(i));
   }
   while (bound < nl) cc.bind(labs[bound++]);
